@@ -219,7 +219,8 @@ class MultipleAccessChannelModel(BaseModel):
         # 1. Encode messages for each user
         encoded_signals = []
         # Determine if encoder is shared: list has 1 element, or list has num_users refs to the same object
-        is_shared_encoder = len(self.encoders) == 1 or (self.num_users > 1 and len(self.encoders) == self.num_users and self.encoders[0] is self.encoders[1])
+        # (every entry must be that object: comparing only the first two would route user 3 of [A, A, B] to A)
+        is_shared_encoder = len(self.encoders) == 1 or (self.num_users > 1 and len(self.encoders) == self.num_users and all(enc is self.encoders[0] for enc in self.encoders))
 
         for i in range(self.num_users):
             # Use index 0 if shared, otherwise use user index i
